@@ -143,7 +143,7 @@ class SequenceOfEncoder(encoder.SequenceOfEncoder):
 class SetEncoder(encoder.SequenceEncoder):
     @staticmethod
     def _componentSortKey(componentAndType):
-        """Sort SET components by tag
+        """Sort SET components by (outermost) tag
 
         Sort regardless of the Choice value (static sort)
         """
@@ -154,11 +154,11 @@ class SetEncoder(encoder.SequenceEncoder):
 
         if asn1Spec.typeId == univ.Choice.typeId and not asn1Spec.tagSet:
             if asn1Spec.tagSet:
-                return asn1Spec.tagSet
+                return asn1Spec.tagSet[-1:]
             else:
-                return asn1Spec.componentType.minTagSet
+                return asn1Spec.componentType.minTagSet[-1:]
         else:
-            return asn1Spec.tagSet
+            return asn1Spec.tagSet[-1:]
 
     def encodeValue(self, value, asn1Spec, encodeFun, **options):
 
